@@ -149,7 +149,23 @@ def observe_bundle(G):
     else:
         G.to_directed()
     ids = G.temporal_snapshots_ids()
+    if not G.is_directed():
+        for n in list(G.nodes())[:4]:
+            G.node_presence(n)
+            try:
+                G.node_density(n)
+                G.node_contribution(n)
+            except ZeroDivisionError:
+                pass
+        for fn in (G.coverage, G.uniformity, G.density, G.avg_number_of_nodes):
+            try:
+                fn()
+            except ZeroDivisionError:
+                pass
+    G.inter_event_time_distribution()
     if ids:
+        G.interactions_per_snapshots(ids[0])
+        G.interactions_per_snapshots(ids[-1] + 3)
         G.time_slice(ids[0])
         G.time_slice(ids[0], ids[-1])
         G.time_slice(ids[-1], ids[-1] + 1)
